@@ -655,6 +655,18 @@ def translate_parse(body_toks, params, consts, states):
     return term, names
 
 
+# the accessors through which the harness observes a parsed uri (and which Model/Uri.v's uri_get / uri_put / .. model by hand):
+# compared token by token, like the fixed parts of build() in c19_translate.py
+EXPECT_ACCESSORS = {
+    'prefix': '{ self . prefix . clone ( ) }',
+    'media': '{ self . media . clone ( ) }',
+    'get': '{ self . params . get ( key ) . map ( String :: as_str ) . unwrap_or_default ( ) }',
+    'get_or_default': '{ self . params . get ( key ) . map ( String :: as_str ) . unwrap_or ( default_value ) }',
+    'put': '{ self . params . insert ( String :: from ( key ) , value ) ; }',
+    'remove': '{ self . params . remove ( key ) . unwrap_or_default ( ) }',
+    'contains_key': '{ self . params . contains_key ( key ) }',
+}
+
 EXPECT_URI_NEW = '{ Self { prefix , media , params } }'
 EXPECT_URI_NEW_PARAMS = 'prefix : String , media : String , params : HashMap < String , String >'
 
@@ -862,6 +874,12 @@ def translate(repo):
         sid_key = translate_sid(fns[key][0], fns[key][1], consts)
     except (Unsupported, IndexError, KeyError, TypeError) as e:
         errors.append('add_session_id: %s' % e)
+    acc_ok = True
+    for name, want in sorted(EXPECT_ACCESSORS.items()):
+        got = fns.get(('ChannelUri', name))
+        if got is None or norm_tokens(got[0]) != want:
+            acc_ok = False
+            errors.append('accessor %s changed: %s' % (name, norm_tokens(got[0]) if got else 'not found'))
     out = ['(* GENERATED on every run by tools/props/c19parser_translate.py from src/channel_uri.rs of the repository',
            '   under check (ChannelUri::parse, Display::fmt, add_session_id). Do not edit. *)']
     if errors:
@@ -889,6 +907,9 @@ def translate(repo):
         out.append('Definition gen_sid : sid_fn := {| sid_key := %s; sid_ok := true |}.' % sid_key)
     else:
         out.append('Definition gen_sid : sid_fn := {| sid_key := []; sid_ok := false |}.')
+    out.append('')
+    out.append('(* prefix() media() get() get_or_default() put() remove() contains_key() have the expected one-line bodies *)')
+    out.append('Definition gen_accessors_ok : bool := %s.' % ('true' if acc_ok else 'false'))
     return '\n'.join(out) + '\n', errors
 
 
@@ -902,7 +923,7 @@ def generate():
     core.write_if_changed(os.path.join(core.COQ, 'Generated', 'GenUriParser.v'), text)
     if errors:
         return False, 'c19parser_translate: unsupported source shape: %s' % '; '.join(errors)
-    return True, 'uri parser: parse(), fmt() and add_session_id() translated'
+    return True, 'uri parser: parse(), fmt() and add_session_id() translated, 7 accessors as expected'
 
 
 if __name__ == '__main__':
